@@ -26,3 +26,4 @@ def check(ctx):
     ctx.floor("SAVE-window", 1)
     drivers.progress_dispatch(ctx)
     drivers.autosave_content(ctx)
+    drivers.autosave_callers(ctx)
